@@ -586,8 +586,13 @@ class EvapSteps:
     def __rtruediv__(self, o):
         return o / self.full
 
+    def __float__(self):
+        return float(self.full)
+
     def __int__(self):
         return self.k
+    __array_priority__ = 5000
+    __array_ufunc__ = None
 
 
 def sym_int(x=0):
@@ -669,8 +674,10 @@ def uf_exp(x):
         return v
     app = _EXP(a)
     if _register("exp", a, app, +1):
-        c.add(app > 0, app >= 1 + a, z3.Implies(a < 1, app * (1 - a) <= 1),
+        c.add(app > 0, app >= 1 + a,
               z3.Implies(a == 0, app == 1), z3.Implies(a > 0, app > 1), z3.Implies(a < 0, app < 1))
+        if not c.abstract_nl:
+            c.add(z3.Implies(a < 1, app * (1 - a) <= 1))
         c.anchors_dirty = True
     return SF(app)
 
@@ -704,8 +711,9 @@ def uf_log(x):
             return NAN
     app = _LOG(a)
     if _register("log", a, app, +1):
-        c.add(app <= a - 1, z3.Implies(a == 1, app == 0), z3.Implies(a > 1, app > 0), z3.Implies(a < 1, app < 0),
-              app * a >= a - 1)   # log a >= 1 - 1/a
+        c.add(app <= a - 1, z3.Implies(a == 1, app == 0), z3.Implies(a > 1, app > 0), z3.Implies(a < 1, app < 0))
+        if not c.abstract_nl:
+            c.add(app * a >= a - 1)   # log a >= 1 - 1/a
         e = _EXP(app)
         c.add(e == a)
         _register("exp", app, e, +1)
@@ -1034,28 +1042,44 @@ PATCH = {"np": symnp, "max": sym_max, "min": sym_min, "round": sym_round, "float
 
 
 # --------------------------------------------------------------------------- context
+RLIMIT_PER_MS = 4000
+
+
 class Ctx:
     """Symbolic exploration context (one per worker; re-used across paths)."""
     cur = None
     symbolic = True
 
     def __init__(self, timeout_ms=20000, abstract_nl=False, max_decisions=4000):
-        self.s = z3.Solver()
-        self.s.set("timeout", timeout_ms)
         self.timeout_ms = timeout_ms
+        self.new_solver()
         self.abstract_nl = abstract_nl
         self.max_decisions = max_decisions
         self.nq = 0
         self.tsolve = 0.0
         self.unknown = 0
         self.replayer = None
-        self.round_enum = 64
+        self.fresh_checks = False
+        self.round_enum = 0
         self.want = None
         self.refine_rounds = 4
         self.reset_path([])
 
+    def new_solver(self):
+        # a fresh solver per path: a long-lived solver with thousands of push/pop rounds was observed to hang on queries
+        # that a fresh one decides instantly
+        self.s = z3.Solver()
+        self.s.set("timeout", self.timeout_ms)
+
     # ---- per path state
     def reset_path(self, prefix):
+        self.new_solver()
+        # prefix = (branch decisions, memoised feasibility answers) of the common part of the path
+        if isinstance(prefix, tuple):
+            prefix, self.qprefix = prefix
+        else:
+            self.qprefix = []
+        self.qlog = []
         self.prefix = prefix
         self.fresh = 0
         self.nstub = 0
@@ -1124,12 +1148,36 @@ class Ctx:
         import time
         self.close_axioms()
         t = time.time()
-        r = self.s.check(*assump)
+        if self.fresh_checks:
+            # non-incremental: every query goes to a fresh solver. The incremental core was observed to ignore its timeout
+            # (and never return) on linear+UF queries that a fresh solver decides in milliseconds.
+            s2 = z3.Solver()
+            s2.set("timeout", self.timeout_ms)
+            s2.add(self.s.assertions())
+            r = s2.check(*assump)
+            self._model_src = s2
+        else:
+            r = self.s.check(*assump)
+            self._model_src = self.s
         self.tsolve += time.time() - t
         self.nq += 1
         if r == z3.unknown:
             self.unknown += 1
         return r
+
+    def last_model(self):
+        return self._model_src.model()
+
+    def memo(self, fn):
+        """value computed from the solver state that later control flow depends on: recorded in the path prefix so that a
+        re-execution of the common prefix sees the same value (and needs no query)"""
+        i = len(self.qlog)
+        if i < len(self.qprefix):
+            self.qlog.append(self.qprefix[i])
+            return self.qprefix[i]
+        v = fn()
+        self.qlog.append(v)
+        return v
 
     def feasible(self, cond):
         """can cond hold on the current path? (unknown counts as feasible)"""
@@ -1137,14 +1185,21 @@ class Ctx:
             cond = cond.e
         if isinstance(cond, (bool, _np.bool_)):
             return bool(cond)
+        i = len(self.qlog)
+        if i < len(self.qprefix):
+            # same deterministic re-execution, same path condition: reuse the answer computed on the parent path
+            self.qlog.append(self.qprefix[i])
+            return self.qprefix[i]
         if self.model is not None:
             try:
                 if z3.is_true(self.model.eval(cond, model_completion=True)):
+                    self.qlog.append(True)
                     return True
             except z3.Z3Exception:
                 pass
-        r = self.check(cond)
-        return r != z3.unsat
+        r = self.check(cond) != z3.unsat
+        self.qlog.append(r)
+        return r
 
     def branch(self, cond):
         cond = z3.simplify(cond)
@@ -1172,14 +1227,14 @@ class Ctx:
         if known is None:
             rt = self.check(cond)
             if rt == z3.sat:
-                self.model = self.s.model(); known = True
+                self.model = self.last_model(); known = True
             elif rt == z3.unsat:
                 self.decisions.append(False)
                 self.s.add(z3.Not(cond))
                 return False
             else:
                 # unknown: treat as feasible both ways (over-approximation), flagged in self.unknown
-                self.pending.append(self.decisions + [False])
+                self.pending.append((self.decisions + [False], list(self.qlog)))
                 self.decisions.append(True)
                 self.s.add(cond); self.model = None
                 return True
@@ -1192,7 +1247,7 @@ class Ctx:
             self.model = keep
             return known
         # both feasible (or unknown): follow `known`, push the other side
-        self.pending.append(self.decisions + [not known])
+        self.pending.append((self.decisions + [not known], list(self.qlog)))
         self.decisions.append(known)
         self.s.add(cond if known else z3.Not(cond))
         self.model = keep
@@ -1203,13 +1258,15 @@ class Ctx:
         e = z3.simplify(si.i)
         if z3.is_int_value(e):
             return e.as_long()
-        for _ in range(limit):
+        def pick():
             m = self.model
             if m is None:
                 if self.check() != z3.sat:
                     raise PathEnd("infeasible", "enum_int on infeasible path")
-                m = self.model = self.s.model()
-            v = m.eval(e, model_completion=True).as_long()
+                m = self.model = self.last_model()
+            return m.eval(e, model_completion=True).as_long()
+        for _ in range(limit):
+            v = self.memo(pick)      # the candidate value is part of the path prefix: re-execution must branch on the same one
             if self.branch(e == v):
                 return v
         raise PathEnd("bound", "enum_int: more than %d values" % limit)
@@ -1289,14 +1346,14 @@ class Ctx:
             # concretely false on a feasible path: any model of the path is a counterexample
             r = self.check()
             if r == z3.sat:
-                self.obls.append((label, "sat", self.model_inputs(self.s.model()))); return False
+                self.obls.append((label, "sat", self.model_inputs(self.last_model()))); return False
             self.obls.append((label, "unknown" if r == z3.unknown else "unsat", None)); return r == z3.unsat
         e = cond.e if isinstance(cond, SB) else cond
         r = self.check(z3.Not(e))
         if r == z3.unsat:
             self.obls.append((label, "unsat", None)); return True
         if r == z3.sat:
-            self.obls.append((label, "sat", self.model_inputs(self.s.model()))); return False
+            self.obls.append((label, "sat", self.model_inputs(self.last_model()))); return False
         self.obls.append((label, "unknown", None)); return False
 
     def depends_on(self, names, terms, since=0):
@@ -1379,7 +1436,7 @@ class Ctx:
     def path_model(self):
         r = self.check()
         if r == z3.sat:
-            self.model = self.s.model()
+            self.model = self.last_model()
             return self.model
         return None
 
